@@ -8,6 +8,7 @@ Ok(true) iff nothing failed or was interrupted and every wanted step is Done.
 The mapping of run()'s result to the process exit status (run::run_impl / main) is covered by the run harness.
 """
 from checks import schedlib as S
+from checks import runlib as R
 
 LEVEL = 'model_checking'
 
@@ -21,6 +22,7 @@ def run(ctx, out):
             if f.name.startswith('two steps'):
                 f.roles = 'ordval'
     S.run_check(ctx, out, 'C05', fams + S.pool_families(ctx.tier)[:1], {'C05'}, outcomes=('Success', 'Failure', 'Interrupted'))
+    R.run_run(ctx, out, 'C05', {'C05'})
     out.coverage.update({
         'explanation': 'states = path classes over graph shape x dirty bits x completion order x outcome of every completion x -k',
         'bounds': {'steps': '2-4', 'outcomes': ['Success', 'Failure', 'Interrupted'], 'k': 'absent, or any value >= 1 (symbolic)'},
